@@ -14,9 +14,11 @@ import (
 	"os"
 	"runtime/debug"
 	"sort"
+	"strconv"
 	"strings"
 	"sync"
 	"sync/atomic"
+	"time"
 
 	"github.com/facebookincubator/dns/dnsrocks/db"
 
@@ -79,6 +81,8 @@ func hasSubset(masks []uint64, m uint64) bool {
 	return false
 }
 
+var profOpen, profAsk, profClose [3]int64 // debugging aid: wall time per phase and backend (C02_PROF)
+
 type served struct {
 	v    dnsgen.Variant
 	resp [][]string
@@ -91,13 +95,19 @@ func (c *checker) serveFile(f *dnsgen.File, variants []dnsgen.Variant, clients [
 	out := make([]served, len(variants))
 	for i, v := range variants {
 		out[i].v = v
+		t0 := time.Now()
 		st, err := dnsgen.OpenStore(c.dir, v, text)
+		atomic.AddInt64(&profOpen[i%3], int64(time.Since(t0)))
 		if err != nil {
 			out[i].err = err
 			continue
 		}
 		atomic.AddInt64(&c.stores, 1)
+		t0 = time.Now()
 		out[i].resp = st.AskAll(c.queries, clients, amb)
+		atomic.AddInt64(&profAsk[i%3], int64(time.Since(t0)))
+		t0 = time.Now()
+		defer func() { atomic.AddInt64(&profClose[i%3], int64(time.Since(t0))) }()
 		atomic.AddInt64(&c.serves, int64(len(c.queries)*len(clients)))
 		st.Close()
 	}
@@ -229,9 +239,9 @@ func main() {
 			core = append(core, i)
 		}
 	}
-	kAll := 2                // every subset of <= kAll items of the whole alphabet
-	kCore := r.Pick(2, 3)    // every subset of <= kCore items of the core alphabet
-	optK := r.Pick(-1, 1)    // compiler-option variants on files of <= optK items
+	kAll := 2             // every subset of <= kAll items of the whole alphabet
+	kCore := r.Pick(2, 3) // every subset of <= kCore items of the core alphabet
+	optK := r.Pick(-1, 1) // compiler-option variants on files of <= optK items
 	levels := [][][]int{}
 	for k := 0; k <= kCore; k++ {
 		var sets [][]int
@@ -246,6 +256,10 @@ func main() {
 				ok = append(ok, s)
 			}
 		}
+		if lim, _ := strconv.Atoi(os.Getenv("C02_LIMIT")); lim > 0 && len(ok) > lim { // debugging aid (timing)
+			ok = ok[:lim]
+			r.Exhaustive = false
+		}
 		levels = append(levels, ok)
 	}
 	bySize := []int{}
@@ -257,6 +271,9 @@ func main() {
 		c.endLevel()
 	}
 	clean()
+	if os.Getenv("C02_PROF") != "" {
+		fmt.Fprintf(os.Stderr, "open %v ask %v close %v (ns, per backend)\n", profOpen, profAsk, profClose)
+	}
 
 	r.Set("states", c.files)
 	r.Set("transitions", c.serves)
@@ -283,7 +300,7 @@ func main() {
 	r.Set("failing_comparisons", c.failing)
 	r.Set("failing_comparisons_not_minimal", c.nonmin)
 	r.Set("max_answer", dnsgen.MaxAnswer)
-	r.Set("rule", fmt.Sprintf("data file = skeleton (apex of example.com, resolver map m1 on the apex and its wildcard, aa/bb subnets, one probe address per location) + every compatible subset of <=%d items of the %d-item optional alphabet (quick) and additionally every subset of <=%d of the %d core items (thorough); each file is compiled by cdb.CreateCDBFromReader and rdb.Compile (v1 keys, v2 keys) and opened by dnsserver.NewFBDNSDBBasic+Load; every (query name of the %d-name closed universe) x (9 query types) x (client) goes through the real ServeDNS with maxAnswer=%d and a constant random source; states = data files; transitions = queries served; evaluations = pairwise comparisons of canonical responses (rcode, flags, question, sections as multisets, OPT/ECS); nontrivial = distinct (file, query, client, response) with a response other than REFUSED. In the additional section the rdata of an address at a name with more than one visible address of that family is not compared (the server draws one at random by design). Only minimal failing files are reported: a file none of whose sub-files fails for the same backend pair, kind, query and client.", kAll, len(items), kCore, len(core), len(dnsgen.Names()), dnsgen.MaxAnswer))
+	r.Set("rule", fmt.Sprintf("data file = skeleton (apex of example.com, resolver map m1 on the apex and its wildcard, aa/bb subnets, one probe address per location) + every compatible subset of <=%d items of the %d-item optional alphabet and additionally every subset of <=%d of its %d core items (quick: 1 and 2, thorough: 2 and 3); each file is compiled by cdb.CreateCDBFromReader and rdb.Compile (v1 keys, v2 keys) and opened by dnsserver.NewFBDNSDBBasic+Load; every (query name of the %d-name closed universe) x (9 query types) x (client) goes through the real ServeDNS with maxAnswer=%d and a constant random source; states = data files; transitions = queries served; evaluations = pairwise comparisons of canonical responses (rcode, flags, question, sections as multisets, OPT/ECS); nontrivial = distinct (file, query, client, response) with a response other than REFUSED. In the additional section the rdata of an address at a name with more than one visible address of that family is not compared (the server draws one at random by design). Only minimal failing files are reported: a file none of whose sub-files fails for the same backend pair, kind, query and client.", kAll, len(items), kCore, len(core), len(dnsgen.Names()), dnsgen.MaxAnswer))
 	r.Assume = []string{
 		"the db package's random source is replaced by a constant (overlay accessor SetRandForVerif): weighted selection itself is C11's subject",
 		"RocksDB and the CDB reader are executed, not modelled",
